@@ -1,8 +1,8 @@
 (* C04 — no input makes a parser, decoder or accessor panic or hang.  In the model only the
    primitive slice/index/deref operations can yield [Panic]; every model function is a
    structurally terminating Gallina function (fuel only in the mapping loop). *)
-From Model Require Import Bytes Prim Tables Cert Sig.
-From Proofs Require Import BytesLemmas PrimProofs Frame LeafProofs TableProofs.
+From Model Require Import Bytes Prim Tables Cert KAC Sig.
+From Proofs Require Import BytesLemmas PrimProofs Frame LeafProofs TableProofs KacRT OffProofs.
 Open Scope Z_scope.
 
 Theorem C04_fixed_size : forall n, NoPanic (take n).
@@ -24,3 +24,20 @@ Proof. exact sig_length_bounds. Qed.
 Theorem C04_signature_unknown_type_is_error : forall t, ~ In t [0;1;2;3;4;5;6;7;8;11] -> sig_length t = None.
 Proof. exact sig_length_unknown. Qed.
 Print Assumptions C04_signature_unknown_type_is_error.
+
+(* key certificate, keys-and-cert, destination, router identity: any bytes at all (not even
+   well-formedness of the byte values is assumed) *)
+Theorem C04_key_certificate : forall x, new_key_certificate x <> Panic.
+Proof. exact new_key_certificate_NoPanic. Qed.
+Theorem C04_keys_and_cert : NoPanic read_keys_and_cert.
+Proof. exact read_keys_and_cert_NoPanic. Qed.
+Theorem C04_destination : NoPanic read_destination.
+Proof. exact read_destination_NoPanic. Qed.
+Theorem C04_router_identity : NoPanic read_router_identity.
+Proof. exact read_router_identity_NoPanic. Qed.
+Print Assumptions C04_router_identity.
+
+Theorem C04_offline_signature : forall dt, NoPanic (fun d => read_offline_signature d dt).
+Proof. exact read_offline_NoPanic. Qed.
+Theorem C04_offline_sizes_never_negative : forall t, 0 <= off_spk_size t /\ 0 <= off_sig_size t.
+Proof. intros t. split; [apply off_spk_size_nonneg|apply off_sig_size_nonneg]. Qed.
